@@ -315,8 +315,16 @@ func (tempErr) Error() string   { return "verif: injected temporary failure" }
 func (tempErr) Temporary() bool { return true }
 func (tempErr) Timeout() bool   { return true }
 
+// listErr is an error whose dynamic type cannot be hashed or compared (like go/scanner.ErrorList or a validator's
+// error slice): a library that uses error values as map keys or compares them with == must still just return it
+type listErr []string
+
+func (l listErr) Error() string { return "verif: injected list of errors: " + strings.Join(l, "; ") }
+
 func errOfKind(kind string) error {
 	switch kind {
+	case "listerr":
+		return listErr{"first", "second"}
 	case "":
 		return nil
 	case "EOF":
@@ -348,6 +356,9 @@ func errOfKind(kind string) error {
 func errID(err error) string {
 	if err == nil {
 		return ""
+	}
+	if _, ok := err.(listErr); ok { // (not comparable: must be recognised by type)
+		return "listerr"
 	}
 	for _, k := range []string{"EOF", "UEOF", "EINTR", "EAGAIN", "temporary", "noprogress", "shortbuffer", "closedpipe", "deadline", "custom"} {
 		if err == errOfKind(k) {
